@@ -32,10 +32,22 @@ def concrete_track(enc, case, rnd, nsec=None):
 
 
 def decode(bdir, lines):
-    p = subprocess.run([common.exe(bdir, "h_track")], input="\n".join(lines) + "\n", stdout=subprocess.PIPE, stderr=subprocess.PIPE,
-                       text=True, timeout=1800, env=dict(os.environ, **common.SAN_ENV))
-    outs = p.stdout.split("\n")
-    return outs, p
+    class R:
+        pass
+    try:
+        p = subprocess.run([common.exe(bdir, "h_track")], input="\n".join(lines) + "\n", stdout=subprocess.PIPE, stderr=subprocess.PIPE,
+                           text=True, timeout=600, env=dict(os.environ, **common.SAN_ENV))
+        outs = p.stdout.split("\n")
+        return outs, p
+    except subprocess.TimeoutExpired as ex:
+        # a decoder that never returns: everything decoded so far is kept, the caller reports the input it stopped at
+        p = R()
+        p.returncode = -999
+        out = ex.stdout or ""
+        if isinstance(out, bytes):
+            out = out.decode("latin1")
+        p.stderr = "h_track did not finish within 600 s (decoder hang)"
+        return out.split("\n"), p
 
 
 def yields_of(out_line, nsec):
